@@ -60,7 +60,7 @@ func (fr *Frame) newHasher() (PtrV, bool) {
 	st := ht.Underlying().(*types.Struct)
 	for i := 0; i < st.NumFields(); i++ {
 		if st.Field(i).Name() == "E" {
-			ex.ptrAliases = append(ex.ptrAliases, ptrAlias{hc, []PathEl{{Field: i}}, PtrV{Cell: ec, Elem: et}})
+			ex.ptrAliases = append(ex.ptrAliases, ptrAlias{hc, []PathEl{{Field: i}}, PtrV{Cell: ec, Elem: et}, nil})
 		}
 	}
 	return PtrV{Cell: hc, Elem: ht}, true
